@@ -258,6 +258,7 @@ SnapshotA(i, k) ==
 CompactA(i, k) ==
   /\ app[i].created /\ Cnt("Compact") < Bound["Compact"]
   /\ k >= StFirst(disk[i]) /\ k <= disk[i].snap.index
+  /\ Up(i) => k <= node[i].applied
   /\ Emit(i, [MkAct("Compact", i) EXCEPT !.k = k], node[i], StCompact(disk[i], k), app[i], net)
 
 CrashA(i) ==
